@@ -3,7 +3,7 @@ from __future__ import annotations
 
 import random
 
-from .. import fsim, gen, lang, monitors, sem, twins
+from .. import protos, fsim, gen, lang, monitors, sem, twins
 from ..lang import CMP_OPS
 
 PROPERTY = "C13"
@@ -88,8 +88,12 @@ def s_mix(rng, nval, head=False):
         names.append("u%d" % i)
     for k in range(rng.randint(2, 6)):
         a, b = rng.choice(names), rng.choice(names)
-        form = rng.choice(["arith", "arith", "cmp", "sel", "proj"])
-        if form == "arith":
+        form = rng.choice(["arith", "arith", "cmp", "sel", "proj", "projty"])
+        if form == "projty":
+            # `expr | u.type` with u untyped: the result travels on u's compiler-chosen signal
+            ut = rng.choice([n_ for n_ in names if n_.startswith("u")] or ["u0"])
+            e = ["p", ["b", rng.choice(["+", "*"]), ["v", a], ["n", rng.randint(1, 5)]], ["ty", ut]]
+        elif form == "arith":
             e = ["b", rng.choice(["+", "-", "*"]), ["v", a], ["v", b]]
         elif form == "cmp":
             e = ["c", rng.choice(CMP_OPS), ["v", a], ["v", b]]
@@ -298,6 +302,10 @@ def run_case(case):
             problems.append({"what": "signal allocated twice before the pool is exhausted", "name": nm})
         seen.add(nm)
     used = signal_names_in_blueprint(b.bp)
+    for nm in sorted(used):
+        # every signal name of the blueprint is a signal of the game (never a compiler placeholder such as __v1)
+        if nm.startswith("__") or not protos.is_known_signal(nm):
+            problems.append({"what": "blueprint uses a name that is not a game signal", "name": nm})
     if problems:
         res = dict(base, verdict="violated", nontrivial=True, monitors=mon,
                    why="allocation: %s" % problems[0], witness={"source": src, "problems": problems[:4],
